@@ -347,7 +347,7 @@ func (p *Prop[C]) hash(c C) uint64 {
 
 func (p *Prop[C]) recorder(t testing.TB) *Recorder {
 	if p.rec == nil {
-		p.rec = NewRecorder(t, p.ID, t.Name(), p.Rule)
+		p.rec = NewRecorder(t, p.ID, t.Name()+"/"+p.Name, p.Rule)
 		p.curTest = t.Name()
 		t.Cleanup(func() { p.rec = nil })
 	}
@@ -456,6 +456,7 @@ func (p *Prop[C]) Check(t *testing.T, quick, thorough int) {
 
 // CheckN runs exactly n rapid cases.
 func (p *Prop[C]) CheckN(t *testing.T, n int) {
+	p.curTest = t.Name()
 	setRapidFlags(n, RapidSeed(p.ID+p.Name))
 	p.recorder(t)
 	t.Cleanup(func() {
@@ -486,6 +487,7 @@ func setRapidFlags(checks int, seed uint64) {
 // is divided among shards by index. exhaustive marks the evidence.
 func (p *Prop[C]) Enumerate(t *testing.T, exhaustive bool, each func(yield func(C) bool)) {
 	e := GetEnv()
+	p.curTest = t.Name()
 	rec := p.recorder(t)
 	rec.Exhaustive = exhaustive
 	t.Cleanup(func() {
@@ -509,6 +511,7 @@ func (p *Prop[C]) Enumerate(t *testing.T, exhaustive bool, each func(yield func(
 
 // One runs a single, fixed case (regression cases kept from shrunk failures).
 func (p *Prop[C]) One(t *testing.T, c C) {
+	p.curTest = t.Name()
 	t.Cleanup(func() {
 		if t.Failed() {
 			p.emitViolation()
@@ -523,6 +526,7 @@ func (p *Prop[C]) One(t *testing.T, c C) {
 // the listed signature the KNOWN marker is printed; if it fails with another
 // signature that is a violation; if it passes nothing is printed.
 func (p *Prop[C]) Probe(t *testing.T, sig string, c C, what string) {
+	p.curTest = t.Name()
 	f := p.RunProtected(c)
 	if f == nil {
 		return
